@@ -91,12 +91,13 @@ class LinearPaths:
       self._link_duplicated_first(merged, self.segment(segpath[0].segment),
                                    first_reversed, jntag)
     else:
-      self.__link_merged(merged.name, segpath[0].inverted(), first_reversed)
+      self.__link_merged(merged.name, segpath[0].inverted(), first_reversed,
+                         "L")
     if last_redundant:
       self._link_duplicated_last(merged, self.segment(segpath[-1].segment),
                                   last_reversed, jntag)
     else:
-      self.__link_merged(merged.name, segpath[-1], last_reversed)
+      self.__link_merged(merged.name, segpath[-1], last_reversed, "R")
     idx1 = 1 if first_redundant else 0
     idx2 = -1 if last_redundant else None
     for sn_et in segpath[idx1:idx2]:
@@ -349,7 +350,8 @@ class LinearPaths:
         merged.set(count_tag, count)
     return merged, first_reversed, last_reversed
 
-  def __link_merged(self, merged_name, segment_end, is_reversed):
+  def __link_merged(self, merged_name, segment_end, is_reversed,
+                    merged_end_type):
     to_disconnect = []
     for l in self.segment(segment_end.segment).dovetails_of_end(
                                                  segment_end.end_type):
@@ -359,20 +361,45 @@ class LinearPaths:
     to_add = []
     for l in to_disconnect:
       l2 = l.clone()
-      to_merged = (l.to_end == segment_end)
-      from_merged = (l.from_end == segment_end)
-      if to_merged:
-        l2.to_segment = merged_name
-        if is_reversed:
-          l2.to_orient = gfapy.invert(l2.to_orient)
-      if from_merged:
-        l2.from_segment = merged_name
-        if is_reversed:
-          l2.from_orient = gfapy.invert(l2.from_orient)
+      if l.record_type == "E":
+        self.__relink_gfa2_edge(l, l2, merged_name, segment_end, is_reversed,
+                                merged_end_type)
+      else:
+        to_merged = (l.to_end == segment_end)
+        from_merged = (l.from_end == segment_end)
+        if to_merged:
+          l2.to_segment = merged_name
+          if is_reversed:
+            l2.to_orient = gfapy.invert(l2.to_orient)
+        if from_merged:
+          l2.from_segment = merged_name
+          if is_reversed:
+            l2.from_orient = gfapy.invert(l2.from_orient)
       to_add.append(l2)
     for l in to_disconnect:
       l.disconnect()
     for l in to_add:
       self.add_line(l)
 
-
+  def __relink_gfa2_edge(self, l, l2, merged_name, segment_end, is_reversed,
+                         merged_end_type):
+    # l is a dovetail: its interval on each segment is a prefix (L end) or
+    # a suffix (R end); the interval on the merged segment has the same
+    # length and lies on the given end of the merged segment
+    merged_len = self.segment(merged_name).length
+    for snum in ["1", "2"]:
+      sid = l.get("sid"+snum)
+      beg = l.get("beg"+snum)
+      end = l.get("end"+snum)
+      end_type = "R" if gfapy.islastpos(end) else "L"
+      if sid.name == segment_end.name and end_type == segment_end.end_type:
+        ovlen = gfapy.posvalue(end) - gfapy.posvalue(beg)
+        orient = gfapy.invert(sid.orient) if is_reversed else sid.orient
+        l2.set("sid"+snum, gfapy.OrientedLine(merged_name, orient))
+        if merged_end_type == "L":
+          l2.set("beg"+snum, 0)
+          l2.set("end"+snum, ovlen)
+        else:
+          l2.set("beg"+snum, gfapy.LastPos(merged_len) if ovlen == 0 \
+                             else merged_len - ovlen)
+          l2.set("end"+snum, gfapy.LastPos(merged_len))
